@@ -98,4 +98,11 @@ ApplyDecimal(w, b) == Apply(w, b)
 IsDecimalSep(w) == w = "virgola"
 DecimalMark == ","
 Annotate(toks) == {}
+
+Vocabulary == DOMAIN Free2 \cup DOMAIN Not10 \cup DOMAIN WhenEmpty \cup DOMAIN Plain \cup Patterns \cup
+              {"zero", "non", "nono", "nona", "noni", "e", "virgola", "primo", "prima", "primi", "prime", "secondo", "seconda", "secondi", "seconde",
+               "terzo", "quarta", "quinti", "seste", "settimo", "ottava", "decimo", "decima", "undicesimo", "dodicesima", "ventesimo", "ventesimi",
+               "centesimo", "millesimo", "milionesimo", "miliardesimo", "ventitré", "ventitre", "ventidue", "trentatré", "centoventi", "centottanta",
+               "centottantuno", "centuno", "centouno", "duecento", "duemila", "duemilatrecento", "centomila", "unmilione", "ventunesimo",
+               "ventitreesimo", "ventitreesima", "centodecimo", "duecentesimo", "duemillesimo", "sedicesimo", "gatti", "il"}
 =============================================================================
